@@ -96,15 +96,26 @@ type Run struct {
 //	"B"      pop the outermost open token and apply (overlapping, non-nested ranges)
 //	"S"      Builder.ShrinkPreCode() (what html.HTML / markdown.Markdown call after parsing; no Pre
 //	         kind is used here, so it must not change any entity)
+//	"Y:<s>"  Builder.Write([]byte(s))    (io.Writer: what the HTML/Markdown parsers really call)
+//	"R:<s>"  Builder.WriteRune(r) for every rune of s
+//	"Z:<s>"  Builder.WriteByte(c) for every byte of s (s must be ASCII: a byte is a text piece only then)
 //
 // API "builder" calls the builder directly; API "styling" wraps every operation into a
 // styling.StyledTextOption (Custom for W, G, O, A, B) and runs styling.Perform.
 func Exec(ops []string, api string) (*Run, error) {
+	return ExecOn(&entity.Builder{}, ops, api, 0)
+}
+
+// ExecOn is Exec on a builder supplied by the caller (a builder that has already produced earlier
+// messages: Complete "returns build result and resets builder", so a builder is reusable by contract).
+// The formatted pieces use Kinds[kindBase], Kinds[kindBase+1], ... so that entities of different
+// messages built on one builder can be told apart by their type.
+func ExecOn(b *entity.Builder, ops []string, api string, kindBase int) (*Run, error) {
 	r := &Run{}
 	var full strings.Builder
 	u16 := 0
 	var refTokens []int // reference token stack: UTF-16 offsets
-	nextKind := 0
+	nextKind := kindBase
 	kind := func() (int, error) {
 		if nextKind >= len(Kinds) {
 			return 0, fmt.Errorf("too many formatted pieces")
@@ -113,7 +124,6 @@ func Exec(ops []string, api string) (*Run, error) {
 		return nextKind - 1, nil
 	}
 
-	b := &entity.Builder{}
 	var tokens []entity.Token
 	var opts []styling.StyledTextOption
 	do := func(direct func(b *entity.Builder), opt func() styling.StyledTextOption) {
@@ -141,6 +151,31 @@ func Exec(ops []string, api string) (*Run, error) {
 			u16 += UTF16Len(s)
 		case "W":
 			do(func(b *entity.Builder) { _, _ = b.WriteString(s) }, nil)
+			full.WriteString(s)
+			u16 += UTF16Len(s)
+		case "Y":
+			do(func(b *entity.Builder) { _, _ = b.Write([]byte(s)) }, nil)
+			full.WriteString(s)
+			u16 += UTF16Len(s)
+		case "R":
+			do(func(b *entity.Builder) {
+				for _, c := range s {
+					_, _ = b.WriteRune(c)
+				}
+			}, nil)
+			full.WriteString(s)
+			u16 += UTF16Len(s)
+		case "Z":
+			for i := 0; i < len(s); i++ {
+				if s[i] >= utf8.RuneSelf {
+					return nil, fmt.Errorf("Z with a non-ASCII byte")
+				}
+			}
+			do(func(b *entity.Builder) {
+				for i := 0; i < len(s); i++ {
+					_ = b.WriteByte(s[i])
+				}
+			}, nil)
 			full.WriteString(s)
 			u16 += UTF16Len(s)
 		case "F":
